@@ -913,7 +913,15 @@ func (m *Model) ZonesOf(f *MFn) Zones {
 	var z Zones
 	ci := m.FindCycles(f)
 	z.DecoCycle, z.CtorCycle = ci.DecoCycle, ci.CtorCycle
-	z.GraphCyclic = m.MaxCyclic(m.AllCtors())
+	// Invoke verifies the graph of the invoking scope only: constructors of
+	// scopes that are not visible from it cannot make it report a cycle
+	var vis []*MFn
+	for _, c := range m.AllCtors() {
+		if m.IsAnc(c.Home, f.View) {
+			vis = append(vis, c)
+		}
+	}
+	z.GraphCyclic = m.MaxCyclic(vis)
 	seen := map[*MFn]bool{}
 	var visit func(g *MFn)
 	visit = func(g *MFn) {
